@@ -53,6 +53,17 @@ class P:
         toks += [hx(a), hx(g.enc_msg([g.enc_set(701, bytes(12))]))]
         return " ".join(toks)
 
+    def sweep(self, g, rng, proto):
+        """usability of EVERY shard: one exporter announces 200 one-field templates (ids 256..455 land in all 32 shards, whatever
+        the hash, with probability > 0.99) and sends data for two of them"""
+        a = rand_addr(rng)
+        tp = [Tpl(256 + i, [], [(1, 0, 8)]) for i in range(200)]
+        msg = g.enc_msg([g.enc_set(g.tpl_set_id(False), b"".join(g.enc_tpl(t, False) for t in tp[k:k + 50])) for k in range(0, 200, 50)])
+        toks = [hx(a), hx(msg)]
+        for t in (tp[0], tp[137]):
+            toks += [hx(a), hx(g.enc_msg([g.enc_set(t.tid, bytes(rng.randrange(256) for _ in range(8)))]))]
+        return " ".join(toks)
+
     def setup(self, g, rng, proto):
         tpls, toks = {}, []
         for _ in range(rng.choice([1, 2, 3])):
@@ -70,24 +81,35 @@ class P:
         return " ".join(toks), tpls
 
     def doc_case(self, g, rng, proto, force_valid=False):
-        shardno = rng.choice([32] * 6 + [31, 33, 0, -1]) if not force_valid else 32
-        nsh = rng.choice([32] * 6 + [0, 1, 31, 33]) if not force_valid else 32
+        # ONE structural defect per document most of the time (a document with several defects is rejected for the first
+        # one and tells nothing about the others); 'multi' keeps the old independent mix
+        defect = "valid" if force_valid else rng.choice(["valid", "shardno", "nshards", "nullshard", "nullmap", "nullmap", "misplaced", "multi", "multi"])
+        shardno = rng.choice([31, 33, 0, -1]) if defect == "shardno" else (rng.choice([32] * 6 + [31, 33, 0, -1]) if defect == "multi" else 32)
+        nsh = rng.choice([0, 1, 31, 33]) if defect == "nshards" else (rng.choice([32] * 6 + [0, 1, 31, 33]) if defect == "multi" else 32)
+        one_bad = rng.randrange(32)
         shards_json, toks, saved, tpls = [], [], set(), {}
         entries = {}
         for _ in range(rng.choice([0, 1, 3, 6]) if not force_valid else rng.choice([2, 4])):
             a = rand_addr(rng)
             t, o = g.rand_tpl(tid=rng.choice([256, 257, 300]), allow_var=False)
             key = a + struct.pack(">H", t.tid)
-            idx = fnv1_32(key) % 32 if rng.random() < 0.9 else rng.randrange(32)
+            idx = fnv1_32(key) % 32 if not (defect in ("misplaced", "multi") and rng.random() < (0.5 if defect == "misplaced" else 0.1)) else rng.randrange(32)
             entries.setdefault(idx, []).append((key, t))
             if idx == fnv1_32(key) % 32:
                 tpls.setdefault(a, []).append(t)
         kinds = []
         for i in range(nsh):
             k = rng.random()
-            kind = "S" if k < 0.85 or i in entries else ("N" if k < 0.93 else "M")
-            if rng.random() < 0.04:
-                kind = rng.choice(["N", "M"])
+            if defect == "multi":
+                kind = "S" if k < 0.85 or i in entries else ("N" if k < 0.93 else "M")
+                if rng.random() < 0.04:
+                    kind = rng.choice(["N", "M"])
+            elif defect == "nullshard" and i == one_bad:
+                kind = "N"
+            elif defect == "nullmap" and i == one_bad:
+                kind = "M"
+            else:
+                kind = "S"
             if force_valid:
                 kind = "S"
             kinds.append(kind)
@@ -117,7 +139,7 @@ class P:
             if bad[0] in text:
                 text = text.replace(bad[0], bad[1], 1)
                 doctoks = "NONE"; saved = set(); tpls = {}
-        line = "cachedoc %s %s D %s H %s" % (proto, hx(text), doctoks, self.hist(g, rng, proto, tpls))
+        line = "cachedoc %s %s D %s H %s %s" % (proto, hx(text), doctoks, self.hist(g, rng, proto, tpls), self.sweep(g, rng, proto))
         self.saved[line] = saved
         return line, text
 
@@ -190,7 +212,7 @@ class P:
         return ("per protocol: 30% save/load round trips of caches reached by decoding (several exporters, re-announcements), then "
                 "decoding with the loaded cache; 10% EVERY proper prefix of such a saved file (complete per file); 40% structured "
                 "documents generated from the document type (wrong ShardNo, 0/1/31/33 shards, null shards, null maps, misplaced and "
-                "valid entries); 10% byte-level mutations of valid files; 10% absent / empty / directory. After each load a template "
+"valid entries; one defect per document in 7 of 9 documents, then a 200-template sweep that inserts into every shard); 10% byte-level mutations of valid files; 10% absent / empty / directory. After each load a template "
                 "is announced and data decoded (usability), and the loaded contents are observed through Dump. every case is distinct")
 
     def trusted_base(self):
